@@ -48,6 +48,16 @@ CLAIMED["C17"] = ("jaxpr->SMT (z3) of PhasorDetector.update iterated over all st
                   "bounded SMT verification: the accumulated phasor equals scale * sum_t w(t) f_t e^{i w t} (every stride incl. auto, scaling mode, window none/Gaussian/Tukey, switch, component subset, frequency set) within 1e-6 relative for all fields in [-1,1]; phasor Poynting detectors return (1/2 in continuous mode) sum area * Re(E x H*) of those phasors exactly",
                   "reals for floats; T <= 24; tolerance 1e-6 because the code keeps the window table in float32; cos/sin tables computed in the harness", "4/C17")
 
+CLAIMED["C21"] = ("jaxpr->SMT (z3, linear real arithmetic) of every symmetry transform on fully symbolic arrays",
+                  "bounded SMT verification: for all 8 classes and all options the output is exactly invariant under the documented index map, symmetric inputs are fixed points, the transform is idempotent and preserves the mean, for all real arrays of every listed shape",
+                  "reals for floats; extents <= 5; 2D with the singleton axis at 0/1/2, 3D cubes and admissible non-cubes", "4/C21")
+CLAIMED["C22"] = ("jaxpr->SMT (z3) of GaussianSmoothing2D._apply_smoothing with symbolic design and padding arrays (all 16 None-patterns)",
+                  "bounded SMT verification: affine in the design/padding, constants fixed, output within the symbolic [lo,hi] range of all inputs (1e-12 relative), commutes with mirroring, default padding equals explicit edge replication -- for all real designs and paddings",
+                  "reals for floats; std in {1,2}; planes <= 5x6; kernel weights are the exact rationals of the float64 weights the code computes", "4/C22")
+CLAIMED["C32"] = ("jaxpr->SMT (z3) of unfold_fields / unfold_array / unfold_detector_states on symbolic arrays for all 26 symmetry tuples",
+                  "bounded SMT verification: the upper half of every unfolding is the input; every reconstructed cell equals sign * source cell of the documented parity / mirror index table; volume-reduced records unfold to the reduction of the unfolded spatial record when nothing sits on a plane -- for all real arrays, E and H, ~30 detector variants per scene",
+                  "reals for floats; reduced shapes <= 4 cells per axis; Diffractive / ClosedSurface / mode / projection detectors and non-uniform grids out of scope", "4/C32")
+
 NOT_APPLICABLE = {
     "C12": "numerical accuracy bound (1e-6 residual energy after >=1e3 steps on >=40^3 cells in floating point); no algebraic identity, far beyond any bounded real-arithmetic encoding",
     "C13": "1e-3 power-ratio bound after hundreds of steps (TFSF leakage is small but non-zero by design); not an identity, out of reach for bounded real arithmetic",
